@@ -93,7 +93,15 @@ func (f *Face) pointsForGlyph(gid tables.GlyphID, currentDepth int, allPoints *[
 		}
 		points = getContourPoints(data) // fetch the "real" points
 	} else { // zeros values are enough
-		points = make([]contourPoint, pointNumbersCount(g))
+		nb := pointNumbersCount(g)
+		// the variations are also applied to the pseudo-points of a composite (one for each component)
+		if f.isVar() && int(gid) < len(f.gvar.variations) {
+			budget.variations -= (nb + phantomCount) * len(f.gvar.variations[gid])
+		}
+		if budget.variations < 0 {
+			return
+		}
+		points = make([]contourPoint, nb)
 	}
 
 	// init phantom point
